@@ -6,7 +6,10 @@ if [ -n "$(git status --porcelain)" ]; then echo "repo not clean"; exit 2; fi
 git apply "$patch" || { echo "patch does not apply"; exit 2; }
 for id in "$@"; do
   echo "=== $id on $(basename $(dirname $patch))"
-  (cd /verif && VERIF_OUT=/var/tmp/seedtest_out timeout 1500 ./vcheck run $id --tier quick 2>&1 | grep -E "^VIOLATION|^INCONCLUSIVE|quick:" | cut -c1-260 | tail -5)
+  out=$(cd /verif && VERIF_OUT=/var/tmp/seedtest_out timeout 1500 ./vcheck run $id --tier quick 2>&1)
+  echo "$out" | grep -E "quick:" | cut -c1-260
+  echo "VIOLATION lines: $(echo "$out" | grep -c '^VIOLATION'); INCONCLUSIVE lines: $(echo "$out" | grep -c '^INCONCLUSIVE')"
+  echo "$out" | grep -E "^VIOLATION|^INCONCLUSIVE" | head -2 | cut -c1-260
 done
 git -C /repo checkout -- .
 git -C /repo status --porcelain | head -2
